@@ -83,6 +83,25 @@ pub fn run(out: &mut Out, thorough: bool, seed: u64, _extra: &[String]) {
         for (nm, c) in &results { valid_line(out, &s, c, "r", &format!("{}-{}", sn, nm)); }
         // every result is accepted by a subsequent operation
         for (nm, c) in &results { if refused(std::panic::AssertUnwindSafe(|| { let _ = ev.negate_new(c); })) { out.raw(&format!("!FAIL accepted_by_next {} {} :: a result of a public operation was refused by negate # next", sn, nm)); } else { out.raw(&format!("!OK accepted_by_next {} {} # next", sn, nm)); } }
+        // ---------- growth to the maximal size: unrelinearized products of every size 2..=16 stay valid and usable,
+        // and a product that would exceed the maximum is refused
+        if pi < 6 {
+            let base = if scheme == SchemeType::CKKS { let enc = CKKSEncoder::new(s.ctx.clone()); s.encryptor.encrypt_new(&enc.encode_f64_single_new(1.5, None, 4.0)) } else { c1.clone() };
+            let mut acc = base.clone();
+            while acc.size() < 16 {
+                let nx = match std::panic::catch_unwind(std::panic::AssertUnwindSafe(|| ev.multiply_new(&acc, &base))) { Ok(c) => c, Err(_) => { out.raw(&format!("!FAIL grow {} size {}x2 :: product of valid operands within the size limit refused # grow", sn, acc.size())); break } };
+                valid_line(out, &s, &nx, "r", &format!("{}-grow-size{}", sn, nx.size()));
+                if refused(std::panic::AssertUnwindSafe(|| { let _ = ev.negate_new(&nx); let _ = ev.add_new(&nx, &nx); let _ = s.decryptor.decrypt_new(&nx); })) { out.raw(&format!("!FAIL accepted_by_next {} grow-size{} :: a result of a public operation was refused by negate/add/decrypt # next", sn, nx.size())); } else { out.raw(&format!("!OK accepted_by_next {} grow-size{} # next", sn, nx.size())); }
+                acc = nx;
+            }
+            if acc.size() == 16 {
+                if refused(std::panic::AssertUnwindSafe(|| { let _ = ev.multiply_new(&acc, &base); })) { out.raw(&format!("!OK refuse {} size-overflow multiply # refuse-size", sn)); } else { out.raw(&format!("!FAIL refuse {} size-overflow multiply :: a product of size 17 was computed # refuse-size", sn)); }
+                // 9 x 8 lands exactly on the maximum
+                let mut a9 = base.clone(); while a9.size() < 9 { a9 = ev.multiply_new(&a9, &base); }
+                let mut a8 = base.clone(); while a8.size() < 8 { a8 = ev.multiply_new(&a8, &base); }
+                if let Ok(c) = std::panic::catch_unwind(std::panic::AssertUnwindSafe(|| ev.multiply_new(&a9, &a8))) { valid_line(out, &s, &c, "r", &format!("{}-grow-9x8", sn)); } else { out.raw(&format!("!FAIL grow {} 9x8 :: product of size 16 refused # grow", sn)); }
+            }
+        }
         let cls = format!("{}-forms", sn);
         forms(out, "negate", &cls, &c1, None, &|a| ev.negate_new(a), &|a, d| ev.negate(a, d), &|a| ev.negate_inplace(a));
         forms(out, "add", &cls, &c1, Some(&c2), &|a| ev.add_new(a, &c2), &|a, d| ev.add(a, &c2, d), &|a| ev.add_inplace(a, &c2));
